@@ -54,6 +54,28 @@ def big_hyperbolic_argument(tree, x):
     return worst[0] > 300
 
 
+def under_resolution(d, n, h):
+    """max over k = 2, 4 of |f^(n+k)(x)| h^k / k! relative to |f^(n)(x)|: how large the next Taylor terms of the n-th derivative are
+    at distance h"""
+    base = abs(d[n]) + 1e-300
+    return max(abs(d[n + k]) * h ** k / math.factorial(k) / base for k in (2, 4) if n + k < len(d))
+
+
+def under_resolved_probe(ctx):
+    """deterministic probe of the recorded finding C02-under-resolved-at-final-step"""
+    import numdifftools as nd
+    f = lambda x: ((np.expm1(0.05 * x) - (1.0 + (1.0 * x * 1.0 * x)) ** 2.5) /
+                   (2.0 + (np.expm1(2.0 * np.sin(np.sin(x))) * np.expm1(2.0 * np.sin(np.sin(x))))))
+    x, exact = 15.71588204554346, -14534768.5074242
+    with warnings.catch_warnings():
+        warnings.simplefilter('ignore')
+        v, info = nd.Derivative(f, n=4, method='complex', order=4, full_output=True)(x)
+    if abs(float(v) - exact) > K_EST * float(info.error_estimate) + 1e-5 * abs(exact):
+        ctx.violation('true error exceeds %g x error_estimate + rounding floor' % K_EST, got=float(v), exact=exact,
+                      error_estimate=float(info.error_estimate), final_step=float(info.final_step), x=x, method='complex', n=4, order=4,
+                      signature='C02-under-resolved-at-final-step')
+
+
 def derivative_search(ctx, budget, honesty):
     import numdifftools as nd
     from numdifftools.step_generators import MinStepGenerator, MaxStepGenerator
@@ -85,6 +107,14 @@ def derivative_search(ctx, budget, honesty):
                 kw['step'] = rng.choice([MaxStepGenerator(), MaxStepGenerator(step_ratio=2.0), MaxStepGenerator(num_steps=20)])
         array_x = rng.random() < 0.15
         xs = np.array([x, x]) if array_x else x
+        pick = 0
+        if array_x and rng.random() < 0.5:
+            # a 2-d argument that is not C-contiguous; the point under test sits at logical position [0, 1] (its place in memory
+            # differs from its place in C order), the other elements are nearby points of the domain (within 1e-3 |x|)
+            xa, xb = x * (1 + 1e-3), x * (1 - 1e-3)
+            xs = np.asfortranarray(np.array([[xa, x, xb], [xb, xa, xa]])) if rng.random() < 0.5 else \
+                np.array([[xa, xb], [x, xa], [xb, xa]]).T
+            pick = 1
         key = (m, n, order, str(tree), x)
         S = local_scale(d, max(n, 0), n + 4)
         rep = dict(program=str(tree), x=x, method=m, n=n, order=order, step=type(kw.get('step')).__name__, exact=d[n] if n < len(d) else None)
@@ -97,12 +127,12 @@ def derivative_search(ctx, budget, honesty):
             ctx.violation('Derivative raised %r' % ex, **rep)
             continue
         ctx.tried(key)
-        v = float(np.ravel(val)[0])
-        est = float(np.ravel(info.error_estimate)[0])
+        v = float(np.ravel(val)[pick])
+        est = float(np.ravel(info.error_estimate)[pick])
         if n == 0:
             with warnings.catch_warnings():
                 warnings.simplefilter('ignore')
-                direct = float(np.ravel(tree(np.asarray(xs)))[0])
+                direct = float(np.ravel(tree(np.asarray(xs)))[pick])
             if not v == direct:
                 ctx.violation('n = 0 does not return f(x)', got=v, fx=direct, **rep)
             continue
@@ -115,10 +145,10 @@ def derivative_search(ctx, budget, honesty):
                 ctx.violation('Derivative is outside the accuracy envelope of (%s, n=%d)' % (m, n), got=v, error=err, local_scale=S,
                               ratio=ratio, envelope=ENV[(m, n)], signature=sig, **rep)
         else:
-            fv = np.ravel(info.f_value)[0] if np.ndim(info.f_value) else info.f_value
+            fv = np.ravel(info.f_value)[pick] if np.ndim(info.f_value) else info.f_value
             with warnings.catch_warnings():
                 warnings.simplefilter('ignore')
-                direct = float(np.ravel(tree(np.asarray(xs)))[0])
+                direct = float(np.ravel(tree(np.asarray(xs)))[pick])
             if not float(fv) == direct:
                 ctx.violation('f_value differs from f(x)', f_value=float(fv), fx=direct, **rep)
             if math.isfinite(v) and not (math.isfinite(est) and est >= 0):
@@ -127,9 +157,15 @@ def derivative_search(ctx, budget, honesty):
                 ctx.violation('error_estimate / final_step do not have one entry per entry of the result',
                               shapes=[list(np.shape(val)), list(np.shape(info.error_estimate)), list(np.shape(info.final_step))], **rep)
             if not err <= K_EST * est + FLOOR[(m, n)] * S:
+                # recorded finding: f is under-resolved at the step the generator ends on (the next Taylor terms of f^(n) at that step
+                # are comparable with f^(n) itself), and the extrapolation of the short sequence does not see the truncation error
+                hfin = abs(float(np.ravel(info.final_step)[pick]))
+                ur = under_resolution(d, n, hfin)
+                sig2 = sig or ('C02-under-resolved-at-final-step' if ur > 0.25 else None)
                 ctx.violation('true error exceeds %g x error_estimate + rounding floor' % K_EST, got=v, error=err, error_estimate=est,
-                              floor=FLOOR[(m, n)] * S, signature=sig, **rep)
+                              floor=FLOOR[(m, n)] * S, final_step=hfin, under_resolution=ur, signature=sig2, **rep)
     if honesty:
+        under_resolved_probe(ctx)
         stationary_single_estimate(ctx, max(20, budget // 8))
     else:
         shared_generator_probe(ctx, max(6, budget // 60))
@@ -145,13 +181,23 @@ def stationary_single_estimate(ctx, budget):
     from harness.exprs import X
     rng = ctx.rng
     EPS = 2.0 ** -52
+    with warnings.catch_warnings():
+        warnings.simplefilter('ignore')
+        pv, pi = nd.Derivative(lambda t: 1e6 * t * t, n=1, method='forward', order=1, step=1e-6, full_output=True)(1.0)
+    if abs(float(pv) - 2e6) > K_EST * float(pi.error_estimate) + 100.0 * EPS * 2e6 / 1e-6:
+        ctx.violation('single difference quotient: the error estimate is the bare step, not scaled by f', f='1e6 * x**2', x=1.0, method='forward',
+                      order=1, step=1e-6, got=float(pv), exact=2e6, error_estimate=float(pi.error_estimate),
+                      signature='C02-single-quotient-unscaled')
     done = skipped = 0
     worst = 0.0
     for _ in range(budget):
         tree, x, d = gen_program(rng, 4)
-        if abs(d[2]) > 1e4 * max(1.0, abs(d[0])) or abs(d[3]) > 1e6 * max(1.0, abs(d[0])):
+        if abs(d[3]) > 1e6 * max(1.0, abs(d[0])):
             skipped += 1
             continue
+        # with one quotient the library reports (|value| eps + h) * 12.7: the step itself, not scaled by f.  That covers the
+        # truncation error h |f''| / 2 up to |f''| = 2 * 12.7 * K_EST; beyond it the recorded finding applies.
+        sig = 'C02-single-quotient-unscaled' if abs(d[2]) > 1e4 else None
         g = Node('sub', (tree, Node('scale', (Node('shift', (X,), const=-x),), const=d[1])))
         m = rng.choice(['forward', 'backward', 'central'])
         h = 10.0 ** rng.uniform(-7, -5)
@@ -171,10 +217,11 @@ def stationary_single_estimate(ctx, budget):
         floor = 100.0 * EPS * S0 / h
         err = abs(v)
         done += 1
-        worst = max(worst, err / (K_EST * est + floor)) if math.isfinite(est) and est >= 0 else float('inf')
+        if sig is None:
+            worst = max(worst, err / (K_EST * est + floor)) if math.isfinite(est) and est >= 0 else float('inf')
         if not (math.isfinite(est) and est >= 0 and err <= K_EST * est + floor):
             ctx.violation('true error exceeds %g x error_estimate + rounding floor (single difference quotient at a stationary point)' % K_EST,
-                          got=v, error=err, error_estimate=est, floor=floor, **rep)
+                          got=v, error=err, error_estimate=est, floor=floor, second_derivative=d[2], signature=sig, **rep)
     ctx.notes.append('single-estimate / stationary-point probes: %d run, %d skipped (|f\'\'| or |f\'\'\'| beyond 1e4 / 1e6 x |f|), worst err/(K est + floor) = %.3g'
                      % (done, skipped, worst))
 
